@@ -19,7 +19,7 @@ EstSplit(off) == LET A == DocTransformL(Dense, GE, 2)  B == DocTransformL(Dense,
                  Shift([Dense EXCEPT !.poses = [k \in 1..9 |-> IF k <= 5 THEN A.poses[k] ELSE B.poses[k]]], -off)
 Modes == <<"none", "sim", "scale", "origin", "scaleorigin">>
 Init == \E tool \in {"ape", "rpe"}, down \in {0, 5, 3, 7}, lo \in {-1000, 2}, hi \in {1000, 6}, off \in {0, 3}, mi \in 1..5, nal \in {0, 3},
-           split \in BOOLEAN, head \in BOOLEAN, pi \in 1..3, rel \in {"trans", "deg", "full", "rotpart", "pdist"}, delta \in {1, 2, 3, 5, 9, 85, 100, 120, 170}, allp \in BOOLEAN, fmt \in {"tum", "euroc", "kitti"},
+           split \in BOOLEAN, head \in BOOLEAN, pi \in 1..3, rel \in {"trans", "deg", "full", "rotpart", "pdist"}, delta \in {1, 2, 3, 5, 9, 85, 100, 120, 170}, allp \in BOOLEAN, fmt \in {"tum", "euroc", "kitti", "bag"},
            dunit \in {"f", "m", "d", "r"}, fromref \in BOOLEAN, cu \in BOOLEAN, walk \in BOOLEAN :
           LET x == [tool |-> tool, ref |-> IF walk THEN Walk ELSE IF fmt = "kitti" THEN Dense ELSE IF head THEN RefHead ELSE RefT,
                     est |-> IF walk THEN Shift(DocTransformL(Walk, GE, 1), -off) ELSE IF split THEN EstSplit(off) ELSE EstT(off), fmt |-> fmt,
@@ -41,7 +41,7 @@ Init == \E tool \in {"ape", "rpe"}, down \in {0, 5, 3, 7}, lo \in {-1000, 2}, hi
           /\ (pi # 1 => rel = (IF tool = "ape" THEN "trans" ELSE "pdist"))
           /\ (rel = "pdist" => tool = "rpe" /\ delta = 1 /\ ~allp /\ down = 0)                                                                       \* projected headings of non-planar poses are free
           /\ (down + lo + hi + 3 * off + 5 * mi + 7 * nal + 11 * pi + 13 * delta + (IF allp THEN 17 ELSE 0) + (IF tool = "ape" THEN 19 ELSE 0)
-              + (IF fmt = "tum" THEN 23 ELSE 0) + (IF rel = "trans" THEN 29 ELSE IF rel = "deg" THEN 31 ELSE 37) + (IF head THEN 41 ELSE 0)
+              + (IF fmt = "tum" THEN 23 ELSE IF fmt = "bag" THEN 59 ELSE 0) + (IF rel = "trans" THEN 29 ELSE IF rel = "deg" THEN 31 ELSE 37) + (IF head THEN 41 ELSE 0)
                  + (IF dunit = "m" THEN 43 ELSE 0) + (IF fromref THEN 47 ELSE 0) + (IF cu THEN 53 ELSE 0))
              % (IF walk THEN 2 ELSE IF (nal # 0 \/ (cu /\ mi = 1) \/ dunit \in {"m", "d", "r"}) /\ SampleK > 5 THEN 5 ELSE SampleK) = 0
           /\ c = x
